@@ -102,10 +102,10 @@ Definition select_by_name_w (bs : list N) (off : N) (name : list N) : res (list 
 (* convert_index / convert_slice say Some(non-empty) exactly when: *)
 Definition index_nonempty (len : Z) (a : array_index) : bool :=
   match a with
-  | AIndex i => let j := resolve_index i len in ((0 <=? j) && (j <? len))%Z
+  | AIndex i => let j := resolve_index i len in CI_INRANGE j len
   | ASlice s e =>
-      let s' := resolve_index s len in let e' := resolve_index e len in
-      negb ((e' <? s') || (len <=? s') || (e' <? 0))%Z
+      let s' := resolve_start s len in let e' := resolve_end e len in
+      negb (CS_EMPTY s' e' len)
   end.
 (* offsets.push(offset); offset += jlength *)
 Fixpoint offsets_of (ws : list N) (off : N) : list N :=
